@@ -1,4 +1,6 @@
-from contracts import views_cache, views_types, views_nodes
+from contracts import views_cache, views_types, views_nodes, views_static, views_build
 
 def build(tier):
-    return dict(targets=views_cache.targets(tier) + views_types.targets(tier) + views_nodes.targets(tier), assumptions=[], trusted_base=[])
+    ts = views_cache.targets(tier) + views_types.targets(tier) + views_nodes.targets(tier) + views_static.targets(tier)
+    ts += [t for t in views_build.targets(tier) if t.id == "codec.ErrorInfo"]
+    return dict(targets=ts, assumptions=[], trusted_base=[])
